@@ -60,6 +60,9 @@ class SSETransport(Transport):
 
         # Message handling - support both immediate and async responses
         self._pending_requests: Dict[str, asyncio.Future] = {}
+        # Per in-flight request: set once the sender has put the request's
+        # terminal message on the read stream (or has given up)
+        self._request_done: Dict[str, asyncio.Event] = {}
         self._message_lock = asyncio.Lock()
 
         # Memory streams for chuk_mcp message API
@@ -380,15 +383,25 @@ class SSETransport(Transport):
             message_id = message_data.get("id")
             if message_id is not None:
                 message_id = str(message_id)
+                resolved = False
+                sender_done = None
                 async with self._message_lock:
                     if message_id in self._pending_requests:
                         future = self._pending_requests.pop(message_id)
                         if not future.done():
                             future.set_result(message_data)
+                            sender_done = self._request_done.get(message_id)
                             logger.debug(
                                 f"Resolved pending request {message_id} via SSE"
                             )
-                        return  # Don't route to incoming stream
+                        resolved = True
+                if resolved:
+                    # The sender task puts the response on the read stream. Hold
+                    # the event stream back until it has done so: whatever
+                    # follows the response on the stream must not overtake it.
+                    if sender_done is not None:
+                        await sender_done.wait()
+                    return  # Don't route to incoming stream
 
             # If not a response to pending request, route to incoming stream
             await self._route_incoming_message(message_data)
@@ -459,8 +472,10 @@ class SSETransport(Transport):
                 request_id = message_id
                 message_id = str(message_id)
                 future: asyncio.Future[Dict[str, Any]] = asyncio.Future()
+                request_done = asyncio.Event()
                 async with self._message_lock:
                     self._pending_requests[message_id] = future
+                    self._request_done[message_id] = request_done
                     logger.debug(f"Added pending request: {message_id}")
 
                 try:
@@ -557,8 +572,11 @@ class SSETransport(Transport):
                     await self._route_incoming_message(error_response)
                 finally:
                     # Clean up pending request
+                    request_done.set()
                     async with self._message_lock:
                         self._pending_requests.pop(message_id, None)
+                        if self._request_done.get(message_id) is request_done:
+                            del self._request_done[message_id]
 
             else:
                 # Notification - no response expected
